@@ -103,9 +103,11 @@ Theorem C13_rf_post_body_not_evaluated : forall (call : Type) krm f loc o,
   ~ In SReturn t /\ (In SPost t -> r = Some (UOut o)).
 Proof. exact rf_postcondition_stops. Qed.
 
-(* non-vacuity: a 4-element list (true skip with a FAILING message, false ok-kind would
-   stop..., here: true, false retry, false permFail) meets the hypotheses and the theorem
-   pins the result; and a function whose preconditions stop really skips its body *)
+(* non-vacuity: a 4-element list (a passing skip whose message FAILS, a false retry, a false
+   permFail, a passing ok) meets the hypotheses of C13_first_false_decides and the result is
+   the retry; a function with these preconditions returns it without evaluating locals or
+   return; a false ok-kind assertion stops the checking; a non-boolean assertion after a
+   false one still gives PermFail *)
 Example C13_nonvacuous :
   let es := [elem (VBool true) (KSkip VErr);
              elem (VBool false) (KRetry (VStr "wait") (VInt 7));
